@@ -29,6 +29,8 @@ VQ(ev) ==
         Ok({MId(m) : m \in post[3]} = {MId(m) : m \in SemPositionMembers(c, qs, qe, co, cw)}, "position:members"),
         Ok(post[1] = b[1] /\ post[2] = b[2], "position:bounds"),
         Ok(post[3] \subseteq c[3], "members-keep-coordinates-and-identifiers"),
+        \* member by member, not identifier by identifier: two members that share an identifier are both in the answer
+        Ok(post[3] = SemPositionMembers(c, qs, qe, co, cw), "position:members"),
         Ok(ev[6], "children-unchanged") >>)
   ELSE IF op = "guids" THEN
      IF ~IsVal(o) THEN "guids:returns"
@@ -66,7 +68,10 @@ WidensBeyondChunk(ev) ==
   IdOp(ev[3]) /\ pre[4] /\ \E m \in c[3] : MS(m) < c[1] \/ ME(m) > c[2]
 (* "precisely the matching members": no member is returned twice *)
 VDistinct(ev) == LET mem == ev[5][2][3] IN
-  Ok(\A i, j \in DOMAIN mem : i # j => mem[i][1] # mem[j][1], "result-members-distinct")
+  \* (two members may share an identifier -- the halves of a gene split by interval-GUID queries do -- but then they differ
+  \* in span or children)
+  Ok(\A i, j \in DOMAIN mem : i # j => (mem[i][1] # mem[j][1] \/ <<mem[i][3], mem[i][4], mem[i][6]>> # <<mem[j][3], mem[j][4], mem[j][6]>>),
+     "result-members-distinct")
 Raw(ev) == IF VQ(ev) # "ok" THEN VQ(ev) ELSE IF ev[5][1] = "v" THEN (IF VDistinct(ev) # "ok" THEN VDistinct(ev) ELSE VSeq(ev)) ELSE "ok"
 Verdict(ev) == IF ev[1] # "q" THEN "unknown-op"
                \* the known finding is about the RANGE of such an answer (bounds widened past the chunk, sequences that can
